@@ -9,14 +9,14 @@ import (
 
 // TableRoles are the roles of methods of type table, derived from signatures and field effects (not names).
 type TableRoles struct {
-	Remove     *core.Func   // (uint32) bool, decrements len
-	Add        *core.Func   // (Entity) uint32
-	SetEntity  *core.Func   // (uint32, Entity)
-	Set        *core.Func   // (ID, uint32, *column, uint32)
-	CopyAll    *core.Func   // (*table, uint32, uint32)
-	AddAll     []*core.Func // (*table, uint32): bulk adds
-	Reset      *core.Func   // empties the receiver
-	GetEntity  *core.Func   // (uintptr) Entity
+	Remove      *core.Func   // (uint32) bool, decrements len
+	Add         *core.Func   // (Entity) uint32
+	SetEntity   *core.Func   // (uint32, Entity)
+	Set         *core.Func   // (ID, uint32, *column, uint32)
+	CopyAll     *core.Func   // (*table, uint32, uint32)
+	AddAll      []*core.Func // (*table, uint32): bulk adds
+	Reset       *core.Func   // empties the receiver
+	GetEntity   *core.Func   // (uintptr) Entity
 	LenMutators map[*core.Func]bool
 }
 
@@ -52,20 +52,36 @@ func GetTableRoles(c *core.Ctx) *TableRoles {
 				r.LenMutators[f] = true
 			}
 		}
+		// the roles are recognised by the multiset of parameter kinds, not by parameter order
+		kinds := map[string][]int{}
+		for i := 0; i < ps.Len(); i++ {
+			k := paramKind(ps.At(i).Type())
+			kinds[k] = append(kinds[k], i)
+		}
+		has := func(want map[string]int) bool {
+			n := 0
+			for k, cnt := range want {
+				if len(kinds[k]) != cnt {
+					return false
+				}
+				n += cnt
+			}
+			return n == ps.Len()
+		}
 		switch {
-		case ps.Len() == 1 && isInt(ps.At(0).Type()) && rs.Len() == 1 && returnsBool(f) && r.LenMutators[f]:
+		case has(map[string]int{"int": 1}) && rs.Len() == 1 && returnsBool(f) && r.LenMutators[f]:
 			r.Remove = f
-		case ps.Len() == 1 && isNamed(ps.At(0).Type(), "Entity") && rs.Len() == 1 && isInt(rs.At(0).Type()):
+		case has(map[string]int{"Entity": 1}) && rs.Len() == 1 && isInt(rs.At(0).Type()):
 			r.Add = f
-		case ps.Len() == 2 && isInt(ps.At(0).Type()) && isNamed(ps.At(1).Type(), "Entity") && rs.Len() == 0:
+		case has(map[string]int{"int": 1, "Entity": 1}) && rs.Len() == 0:
 			r.SetEntity = f
-		case ps.Len() == 4 && isNamed(ps.At(0).Type(), "ID") && isInt(ps.At(1).Type()) && isPtrTo(ps.At(2).Type(), "column") && isInt(ps.At(3).Type()):
+		case has(map[string]int{"ID": 1, "int": 2, "*column": 1}):
 			r.Set = f
-		case ps.Len() == 3 && isPtrTo(ps.At(0).Type(), "table") && isInt(ps.At(1).Type()) && isInt(ps.At(2).Type()) && rs.Len() == 0:
+		case has(map[string]int{"*table": 1, "int": 2}) && rs.Len() == 0:
 			r.CopyAll = f
-		case ps.Len() == 2 && isPtrTo(ps.At(0).Type(), "table") && isInt(ps.At(1).Type()) && rs.Len() == 0:
+		case has(map[string]int{"*table": 1, "int": 1}) && rs.Len() == 0:
 			r.AddAll = append(r.AddAll, f)
-		case ps.Len() == 1 && isInt(ps.At(0).Type()) && rs.Len() == 1 && isNamed(rs.At(0).Type(), "Entity"):
+		case has(map[string]int{"int": 1}) && rs.Len() == 1 && isNamed(rs.At(0).Type(), "Entity"):
 			r.GetEntity = f
 		}
 		for _, pi := range em[f] {
@@ -76,6 +92,63 @@ func GetTableRoles(c *core.Ctx) *TableRoles {
 	}
 	tableRolesCache[c.M] = r
 	return r
+}
+
+// paramKind classifies a parameter type for role recognition.
+func paramKind(t types.Type) string {
+	switch {
+	case isNamed(t, "Entity"):
+		return "Entity"
+	case isNamed(t, "ID"):
+		return "ID"
+	case isPtrTo(t, "table"):
+		return "*table"
+	case isPtrTo(t, "column"):
+		return "*column"
+	case isInt(t):
+		return "int"
+	}
+	return "other:" + t.String()
+}
+
+// roleArg returns the argument of a call of role function f that fills the named slot. Slots: "entity", "comp",
+// "src" (the other table), "srcCol", "row"/"dstRow" (first integer parameter), "srcRow"/"count" (the second integer
+// parameter, or the only one for "count"). Independent of the order in which the function declares its parameters,
+// except for the relative order of the two row parameters (destination first), which is the convention of every
+// copy function of the package.
+func roleArg(f *core.Func, call *ast.CallExpr, slot string) ast.Expr {
+	if f == nil || f.Sig == nil {
+		return nil
+	}
+	ps := f.Sig.Params()
+	var ints []int
+	idx := -1
+	for i := 0; i < ps.Len(); i++ {
+		switch k := paramKind(ps.At(i).Type()); {
+		case k == "int":
+			ints = append(ints, i)
+		case k == "Entity" && slot == "entity", k == "ID" && slot == "comp", k == "*table" && slot == "src", k == "*column" && slot == "srcCol":
+			idx = i
+		}
+	}
+	switch slot {
+	case "row", "dstRow":
+		if len(ints) >= 1 {
+			idx = ints[0]
+		}
+	case "srcRow":
+		if len(ints) >= 2 {
+			idx = ints[1]
+		}
+	case "count":
+		if len(ints) >= 1 {
+			idx = ints[len(ints)-1]
+		}
+	}
+	if idx < 0 || idx >= len(call.Args) {
+		return nil
+	}
+	return call.Args[idx]
 }
 
 // missing lists the roles that could not be derived.
